@@ -86,6 +86,26 @@ def run_part(chk, n=None):
     for i in (0, len(lines) // 2):
         chk.sample({"case": lines[i][:600], "impl": impl[i][:600], "model": model[i][:600]})
 
+    # The four booleans of acceptConsumerGroup (allowlist set? matches? denylist set? matches?) for every group name a history uses,
+    # from the pattern texts the probe configures: StorageDelProofs.storage_accept of them must be the model's cf_accept (membership
+    # in the header's rejected-id set).  The real regexps' verdicts are tied to that set by the differential above; this closes the
+    # chain  real acceptConsumerGroup = cf_accept = storage_accept(a_set, a_m, d_set, d_m)  (theorem C10_accept_spec_storage).
+    bad_lists = []
+    for ln in lines:
+        head, ops = SC.split_history(ln)
+        cfg = G.parse_header(head)
+        rej = set(cfg["rej"])
+        for g in sorted({int(o[3]) for o in ops if o[0] in ("C", "O", "X", "FX", "DG")}):
+            v = G.list_verdicts(cfg, g)
+            chk.count("st:accept a_set=%d a_m=%d d_set=%d d_m=%d -> %s" % (v + ("accept" if G.storage_accept(*v) else "reject",)))
+            if G.storage_accept(*v) != (g not in rej):
+                bad_lists.append((ln, g, v))
+    if bad_lists:
+        ln, g, v = bad_lists[0]
+        chk.violation("storage_four_booleans", {"kind": "history", "case": ln, "broken": "corr:storage.acceptConsumerGroup four booleans "
+                      "(StorageDelProofs.storage_accept) vs cf_accept", "oracle_verdict": "group id %d: (a_set, a_m, d_set, d_m) = %r gives %s "
+                      "but the header's rejected set says %s" % (g, v, G.storage_accept(*v), g not in rej)}, found_input=False)
+
     found = 0
     for i, (ln, fs) in enumerate(zip(lines, verdicts)):
         if not fs:
